@@ -441,7 +441,13 @@ func c05(c *an.Check) {
 				return r == an.EQ && ((isRemote(x) && isReq(y)) || (isRemote(y) && isReq(x)))
 			}),
 			an.FactReq("requested peer is empty", func(s *an.State, x, y ssa.Value, r an.Rel) bool {
-				return r == an.EQ && an.IsParam(an.ConvOf(x), 2) && an.IsStrConst(an.ConvOf(y), "")
+				if r != an.EQ {
+					return false
+				}
+				if an.IsParam(an.ConvOf(x), 2) && an.IsStrConst(an.ConvOf(y), "") {
+					return true
+				}
+				return an.IsIntConst(y, 0) && an.LenOf(s, x, func(a ssa.Value) bool { return an.IsParam(an.ConvOf(a), 2) })
 			}))}})
 	// the link reported is the one the per-address dialer produced
 	c.EachReturn("PROVENANCE", "quic.Transport.DialPeer reports the dialer's link", dp, "link = dialer.result.Await(ctx)", func(s *an.State, ret *ssa.Return) string {
